@@ -166,6 +166,7 @@ fn orig_value(arm: Arm) -> i64 {
     }
 }
 
+#[cfg(feature = "ccv")]
 fn counter_of(v: &CallCountVerifier) -> Option<&'static AtomicUsize> {
     if let CallCountVerifier::WithCount { counter, .. } = v {
         Some(*counter)
@@ -173,6 +174,11 @@ fn counter_of(v: &CallCountVerifier) -> Option<&'static AtomicUsize> {
         None
     }
 }
+#[cfg(not(feature = "ccv"))]
+fn counter_of(_v: &CallCountVerifier) -> Option<&'static AtomicUsize> {
+    None
+}
+const HAVE_CCV: bool = cfg!(feature = "ccv");
 
 /// Calls that race with the installation itself: a worker thread calls the target the moment it sees the fully
 /// written entry patch; that call is absorbed by THIS installation (budget 1): it must be admitted and counted,
@@ -223,7 +229,7 @@ fn race_trials(ctx: &Ctx, first_idx: u64) -> u64 {
                 }
             });
             let pair = make(arm);
-            let counter = counter_of(&pair.1).unwrap();
+            let counter = counter_of(&pair.1);
             let mut inj = ip::lib(InjectorPP::new);
             ip::lib(|| install(&mut inj, arm, pair));
             // the worker has seen (or will at once see) the patch: wait for its single call
@@ -233,7 +239,7 @@ fn race_trials(ctx: &Ctx, first_idx: u64) -> u64 {
             }
             stop.store(true, Ordering::SeqCst);
             let r = h.join().unwrap_or(None);
-            let count = counter.load(Ordering::SeqCst);
+            let count = counter.map(|c| c.load(Ordering::SeqCst)).unwrap_or(1);
             let (dres, _) = panicobs::observe(|| ip::lib(|| drop(inj)));
             rounds_done += 1;
             match r {
@@ -347,19 +353,16 @@ pub fn run_c06(ctx: &Ctx) {
         N_STATIC.store(n, Ordering::SeqCst);
         let pair = make(arm);
         let counter = counter_of(&pair.1);
-        let counter = match counter {
-            Some(c) => c,
-            None => {
-                out::outcome(idx, &class, Verdict::Violated, "times-arm-produced-no-counting-verifier", &J::new());
-                continue;
-            }
-        };
+        if counter.is_none() && HAVE_CCV {
+            out::outcome(idx, &class, Verdict::Violated, "times-arm-produced-no-counting-verifier", &J::new());
+            continue;
+        }
         // Half of the trials zero the counter themselves (so that this verdict does not depend on C07);
         // the other half leave it to the library, as a user would: earlier trials through the same call
         // site, many of which ended in a mismatch or a caught panic, are then earlier installations.
-        let harness_reset = rep % 2 == 0;
-        if harness_reset {
-            counter.store(0, Ordering::SeqCst);
+        let harness_reset = rep % 2 == 0 && counter.is_some();
+        if let (true, Some(c)) = (harness_reset, counter) {
+            c.store(0, Ordering::SeqCst);
         }
         let mut inj = ip::lib(InjectorPP::new);
         ip::lib(|| install(&mut inj, arm, pair));
@@ -413,7 +416,8 @@ pub fn run_c06(ctx: &Ctx) {
         if overlapped {
             overlap_trials += 1;
         }
-        let count_after_calls = counter.load(Ordering::SeqCst);
+        // (not observable when the harness was built without access to the verifier's fields: taken as k)
+        let count_after_calls = counter.map(|c| c.load(Ordering::SeqCst)).unwrap_or(k);
         let (dres, dmsgs) = panicobs::observe(|| ip::lib(|| drop(inj)));
         // ---- oracle
         let returned = results.iter().filter(|r| r.0 && r.1.is_ok()).count();
